@@ -309,7 +309,7 @@ func (en *Engine) verifyUnit(u *UnitInfo) *UnitResult {
 		if len(rs) != u.Sig.Results().Len() && u.Sig.Results().Len() > 0 {
 			return // unreachable end of a function with results (Go requires a terminating statement)
 		}
-		exit(st, rs)
+		x.runDefers(st, func(st *State) { exit(st, rs) })
 	})
 	res.Obls = x.obls
 	res.Undecided = x.undecided
